@@ -241,6 +241,13 @@ theorem swap_active (old new : List Pod) :
     ((Slot.mk none none).updated new).active = some [] := by
   simp [Slot.updated, Slot.synced, Slot.active, Comp.view]
 
+/-- The new component of an update has synced but nothing has finalised the swap yet
+    (`pendingSwap.HasSynced` not called): `pendingSwap.active` already hands out the NEW component - the same
+    answer as after the finalisation. -/
+theorem swap_ran_active (s : Slot) (old : Option Comp) (new : Comp) (h : s.swap = some (old, new)) :
+    s.ran.active = some ({ new with synced := true } : Comp).view := by
+  simp [Slot.ran, Slot.active, h]
+
 /-- A second rotation before the first one synced leaves the cluster without pod data (requests are
     refused) until the second one syncs: fail closed. -/
 theorem double_update_fail_closed (old n1 n2 : List Pod) :
@@ -436,6 +443,22 @@ theorem issued_outlives_now {κ : Type} {g : Fixes} {encode : CertData → κ} {
     simp only [Int.min_def]
     split <;> omega
 
+/-- The bound is one of the model's NANOSECOND clock; certificates carry whole seconds.  A positive lifetime
+    below one second cannot be asked for directly (ValidityDuration counts seconds), but the int64 wrap of
+    `ValidityDuration * 1e9` reaches it: 20211507185753197 s wraps to 512 ns, the request passes the maximum
+    check and the certificate ends 512 ns after `now` - in whole seconds: when it is issued (observation: the
+    requester harms only itself; nothing beyond the maximum is ever issued, `ttl_bounds`). -/
+def exSubSecond : Server :=
+  { ca := { defaultTTL := 3600, maxTTL := 86400, bundle := { signerNotAfter := some 1000000000000000, chain := [], hasRoot := true } },
+    nodeAuth := none }
+
+theorem sub_second_lifetime_witness :
+    requestedTTL 20211507185753197 = 512 ∧ requestedTTL 40423014371506394 = 1024 ∧
+    (leafData id (createCertificate Fixes.all id exSubSecond {} [⟨some { identities := ["a.b"] }, false⟩]
+        { csr := {}, validity := 20211507185753197 } 5000000000)).map (fun d => (d.tmpl.notAfter, d.tmpl.notAfter / 1000000000)) =
+      some (5000000512, 5) := by
+  decide
+
 /-- ... and without that hypothesis the bound fails (observation, a configuration corner): a maximum TTL
     of zero refuses every positive request, and a request for the default lifetime gets a certificate
     that ends at the moment it is issued. -/
@@ -449,6 +472,12 @@ theorem zero_max_issues_expiring_now_witness :
     createCertificate Fixes.all id exZeroMax {} [⟨some { identities := ["a.b"] }, false⟩]
         { csr := {}, validity := 1 } 5 = (.err .invalidArgument : Resp CertData) := by
   decide
+
+/-- istiod's plugged-in CA is built by `NewPluggedCertIstioCAOptions`, which refuses a signing certificate
+    that is not a CA certificate: no CA, no certificates. -/
+theorem plugged_signer_must_be_ca (b : Bundle) (d m now : Int) :
+    newPluggedIstioCA false b d m now = none ∧ newPluggedIstioCA true b d m now = newIstioCA b d m now := by
+  simp [newPluggedIstioCA]
 
 /-- Since the fix a defaulted lifetime never exceeds the maximum. -/
 theorem lifetime_capped (ca : CA) (requested : Int) (h : requested ≤ ca.maxTTL) :
